@@ -269,8 +269,8 @@ def _worker(ctx, n):
 
 def run(ctx):
     quick = ctx.tier == "quick"
-    vs = [4, 8] if quick else [4, 5, 8, 13, 14]
+    vs = [4, 8] if quick else list(range(4, 15))
     jobs = [(v, wl) for v in vs for wl in WORKLOADS]
     ctx.parallel(_worker_enum, jobs)
     ctx.exhaustive["every wire event x before/after x 8 failure kinds for the listed workloads and versions"] = True
-    ctx.parallel(_worker, [60] * 16 if quick else [600] * 16)
+    ctx.parallel(_worker, [60] * 16 if quick else [5000] * 16)
